@@ -672,15 +672,29 @@ def deterministic_mutants(per_kind=12):
     """every mutation class drawn `per_kind` times from a FIXED random stream (independent of VERIF_SEED): what a check
     claims to catch must not depend on the luck of the seed → [(stream, kind, is_response)]"""
     import random
-    rng = random.Random(20260922)
+
+    class _Seq(random.Random):
+        """choice() walks through the alternatives (the i-th draw of a kind takes the i-th variant of every list)"""
+        idx = None
+
+        def choice(self, seq):
+            if self.idx is None:
+                return super().choice(seq)
+            return seq[self.idx % len(seq)]
+    rng = _Seq(20260922)
     out = []
     for kind in MUTATIONS:
         for i in range(per_kind):
+            rng.idx = None
             base = gen_request(rng) if i % 4 else b"".join(gen_request(rng) for _ in range(2))
+            rng.idx = i
             data, k = mutate(rng, base, kind)
             out.append((data, k, False))
         for i in range(max(2, per_kind // 4)):
-            data, k = mutate(rng, gen_response(rng, True), kind)
+            rng.idx = None
+            base = gen_response(rng, True)
+            rng.idx = i
+            data, k = mutate(rng, base, kind)
             out.append((data, k, True))
     return out
 
